@@ -37,6 +37,8 @@ DIRECTED = [
     'return (-1e3, -2.5, -7, -7.0, -0.001, - 1e3, -(1e3), -(-100), --7, -(-2.5), - - -9)',
     'with C3:\n        with fp.MPFloatContext(9 + 2):\n            v = x1 / 3\n        w = x1 / 3\n    return (v, w, x1 / 3)',
     'with fp.INTEGER:\n        with fp.MPFloatContext(2.5 * 2 + 6) as c:\n            v = x1 / 3\n        w = x1 / 3\n    return (v, w)',
+    'with C3:\n        with (fp.MPFloatContext(9 + 2) if x1 > 0 else fp.MPFloatContext(13 - 2, fp.RM.RTZ)):\n            v = x1 / 3\n        w = x1 / 3\n    return (v, w)',
+    'cs = [fp.FP16, fp.MPFloatContext(9 + 2), fp.MPFloatContext(5)]\n    with C3:\n        with cs[(9 + 2) - 10]:\n            v = x1 / 3\n        with (cs[2] if x2 > x1 else cs[0]) as c:\n            w = x2 / 3\n    return (v, w)',
     'with F8:\n        if x1 > 0:\n            return x1 / 3\n        v = x1 * 3\n    return v / 7',
     'for i in range(3):\n        with S4:\n            if x1 > i:\n                return (x1 / 3, i)\n    return (x1 / 3, -1)',
     'ys = [x1, x2]\n    zs = ys\n    zs[0] = x2 / 3\n    ws = ys[0:2]\n    ws[1] = 7\n    return (ys, zs, ws)',
